@@ -51,6 +51,7 @@ type Val struct {
 	L     *Loc
 	Fn    *ssa.Function
 	Binds []Val
+	Snaps []Val // per binding: content of a captured variable that is never reassigned (zero Val otherwise)
 	Typ   types.Type
 }
 
